@@ -2366,12 +2366,13 @@ BIND_ROUTES = [
 ]
 
 
-def _bind_retry(rec, case_id, field, psrc, routes, n_attempts=3):
-  """The same placeholder object is offered to a field several times.
+def _bind_steps(rec, case_id, psrc, steps):
+  """The same placeholder object is offered to fields several times.
 
-  Whatever the earlier attempts did (refused or accepted), a template that
-  exists afterwards must decode every DNA to a value its field accepts: a
-  refused bind must not leave a trace that lets a later bind through.
+  steps: [(route index, field)].  Whatever the earlier attempts did (refused
+  or accepted), a template that exists afterwards must decode every DNA to a
+  value its field accepts: a refused bind must not leave a trace that lets a
+  later bind through.
   """
   code = f'h = {psrc}\n'
   env = dict(_env())
@@ -2381,10 +2382,11 @@ def _bind_retry(rec, case_id, field, psrc, routes, n_attempts=3):
     rec.case(case_id, code, False, f'unexpected {type(e).__name__}: {e}', code)
     return
   history = []
-  for i in range(n_attempts):
-    rname, rsrc = routes[i % len(routes)]
+  for ri, field in steps:
+    rname, rsrc = BIND_ROUTES[ri % len(BIND_ROUTES)]
     step = rsrc.format(f=field)
-    code += f'try:\n  ' + step.replace('\n', '\n  ') + f'\n  ok{i} = True\nexcept (TypeError, ValueError, KeyError):\n  ok{i} = False\n'
+    code += ('try:\n  ' + step.replace('\n', '\n  ')
+             + '\nexcept (TypeError, ValueError, KeyError):\n  v = None\n')
     env.pop('v', None)
     try:
       exec(step, env)  # pylint: disable=exec-used
@@ -2394,18 +2396,16 @@ def _bind_retry(rec, case_id, field, psrc, routes, n_attempts=3):
     except Exception as e:  # pylint: disable=broad-except
       rec.case(case_id, code, False, f'unexpected {type(e).__name__}: {e}', code)
       return
-    history.append(f'{rname}:' + ('accepted' if accepted else 'refused'))
+    history.append(f'{rname}({field}):' + ('accepted' if accepted else 'refused'))
     if not accepted:
       continue
-    v = env['v']
-    bad = _decodes_accepted(v, field, code)
+    bad = _decodes_accepted(env['v'], field, code)
     wit = ('import pyglove as pg\nfrom bounded.c13_hyper import A, A2, B, H\n' + code
            + 't = pg.template(v)\nfor d in t.dna_spec().iter_dna():\n'
            '  x = t.decode(d)\n'
            f"  x = x.sym_getattr('{field}') if isinstance(x, pg.Object) else x[0 if isinstance(x, list) else '{field}']\n"
            f"  H.__schema__['{field}'].value.apply(pg.clone(x, deep=True))")
-    rec.case(case_id, code, bad is None,
-             f'attempts {history}: {bad}', wit)
+    rec.case(case_id, code, bad is None, f'attempts {history}: {bad}', wit)
     if bad is not None:
       return
   if not any(h.endswith('accepted') for h in history):
@@ -2439,14 +2439,17 @@ def _mutate_after_bind(rec, case_id, field, psrc, mutation):
 
 
 def drv_binding(tier, seed):
-  del seed
   rec = Recorder(
       'C13', 'decoded values are accepted by the value spec the placeholder is bound to',
       scope='11 field specs (Int range, Str, Float range, List(min/max size), '
       'Dict schema, Union, Object, Enum, noneable, Tuple, Bool) x good/bad '
       'candidates x placement (direct, nested oneof x2, floatv, manyof, list '
       'element, dict field) ; shared placeholders re-bound to a second spec; '
-      'manyof size vs list size limits')
+      'manyof size vs list size limits; the same placeholder object offered '
+      'again after a refusal / an acceptance (3 attempts, 4 binding routes: '
+      'constructor, rebind, typed pg.Dict, typed pg.List), refused by one '
+      'field then offered to another (18 pairs); placeholder internals '
+      '(candidates, num_choices, float bounds) changed after binding')
   for field, (good, bad) in FIELD_VALUES.items():
     plain_good = [g for g in good if 'pg.' not in g] or good
     # All-good placements must build and decode to accepted values.
@@ -2470,6 +2473,80 @@ def drv_binding(tier, seed):
   for case, field, psrc in SIZE_CASES:
     _bind_check(rec, f'bind.list-size/{case}', field, psrc,
                 'outside' not in case, tier)
+  # The same placeholder object offered again after a refusal (error path,
+  # then a second call): by every route, to the same field.  Candidates that
+  # are pg.List / pg.Dict containers carry a value spec of their own, hence
+  # their own input class.
+  ckind = lambda f: 'container-candidates' if f in 'ldm' else 'scalar-candidates'
+  n = seed
+  for field, (good, bad) in FIELD_VALUES.items():
+    plain_good = [g for g in good if 'pg.' not in g] or good
+    for b in bad:
+      cls = 'hyper' if 'pg.' in b else 'const'
+      sname, shape = SHAPES[n % len(SHAPES)]
+      cs = [plain_good[0], plain_good[-1]]
+      cs.insert((n // 3) % 3, b)
+      cid = (f'{sname}.{cls}.scalar-candidates' if ckind(field)[0] == 's'
+             else ckind(field))
+      _bind_steps(rec, f'bind.retry-after-refusal/{cid}', shape(cs),
+                  [(n + i, field) for i in range(3)])
+      n += 1
+      if 'pg.' in b:
+        kind = ('floatv' if b.startswith('pg.floatv') else
+                'manyof' if b.startswith('pg.manyof') else 'container-with-oneof')
+        for k in range(len(BIND_ROUTES)):
+          _bind_steps(rec, f'bind.retry-after-refusal/{kind}', b,
+                      [(k, field), (k, field), (k + 1, field)])
+          if tier == 'quick':
+            break
+    # ... and an acceptable one offered repeatedly stays acceptable / decodable.
+    for g in good[:1 if tier == 'quick' else 2]:
+      cs = [g, plain_good[0], plain_good[-1]]
+      _bind_steps(rec, 'bind.retry-after-acceptance/oneof', SHAPES[n % 3][1](cs),
+                  [(n + i, field) for i in range(2 if tier == 'quick' else 3)])
+      n += 1
+  # Refused by one field, then offered to another field (looser, stricter or
+  # unrelated spec).
+  cross = [
+      ('i', 'n', "pg.oneof([1, 'a'])"), ('i', 'n', 'pg.oneof([1, -1])'),
+      ('i', 'u', 'pg.oneof([1, 1.5])'), ('s', 'u', "pg.oneof(['a', 1])"),
+      ('u', 's', "pg.oneof(['a', 1.5])"), ('n', 'i', "pg.oneof([1, 'a'])"),
+      ('i', 'f', 'pg.oneof([0, 1, 20])'), ('e', 's', "pg.oneof(['a', 'c', 3])"),
+      ('e', 's', "pg.oneof(['a', 'c'])"), ('l', 'm', 'pg.oneof([[1], [-1, 1, 1]])'),
+      ('l', 'm', "pg.manyof(3, [1, 'a', 2])"), ('m', 'l', 'pg.manyof(3, [1, -1, 2])'),
+      ('f', 'i', 'pg.oneof([0.5, 3])'), ('f', 'n', 'pg.floatv(0.5, 1.5)'),
+      ('o', 'd', "pg.oneof([A(x=1), dict(k=1, l='a'), 3])"),
+      ('t', 'l', "pg.oneof([(1, 'a'), [1], 5])"),
+      ('b', 'i', 'pg.oneof([True, 2])'), ('i', 'b', 'pg.oneof([True, 2])'),
+  ]
+  for k, (f1, f2, psrc) in enumerate(cross):
+    kind = ckind(f1 if f1 in 'ldm' else f2)
+    if kind[0] == 's':
+      kind = psrc[3:psrc.index('(')] + '.' + kind
+    _bind_steps(rec, f'bind.refused-then-other-field/{kind}', psrc,
+                [(k, f1), (k + 1, f2), (k + 2, f1), (k + 3, f2)])
+  # A placeholder changed after it was bound (bind, then mutate).
+  muts = [
+      ('choice-candidates', 'i', 'pg.oneof([1, 2])', {'i.candidates[0]': -1}),
+      ('choice-candidates', 's', "pg.oneof(['a', 'b'])", {'s.candidates[1]': 1}),
+      ('choice-candidates', 'i', 'pg.oneof([1, pg.oneof([2, 3])])',
+       {'i.candidates[1].candidates[0]': 'x'}),
+      ('choice-candidates', 'i', 'pg.oneof([1, 2])', {'i.candidates[2]': 10}),
+      ('valid-change', 'i', 'pg.oneof([1, 2])', {'i.candidates[0]': 3}),
+      ('choice-candidates', 'l', 'pg.manyof(2, [1, 2, 3])', {'l.candidates[0]': -1}),
+      ('choice-candidates', 'l', 'pg.manyof(2, [1, 2, 3])', {'l.candidates[2]': 'a'}),
+      ('manyof-num_choices', 'l', 'pg.manyof(2, [1, 2, 3, 4])', {'l.num_choices': 4}),
+      ('floatv-bounds', 'f', 'pg.floatv(0.25, 0.75)', {'f.max_value': 1.5}),
+      ('floatv-bounds', 'f', 'pg.floatv(0.25, 0.75)', {'f.min_value': -1.0}),
+      ('valid-change', 'f', 'pg.floatv(0.25, 0.75)', {'f.max_value': 1.0}),
+      ('choice-candidates', 'l', '[pg.oneof([1, 2])]', {'l[0].candidates[0]': -2}),
+      ('choice-candidates', 'd', "dict(k=pg.oneof([1, 2]), l='a')",
+       {'d.k.candidates[1]': 'z'}),
+      ('choice-candidates', 'o', 'A(x=pg.oneof([1, 2]))',
+       {'o.x.candidates[0]': 11}),
+  ]
+  for name, field, psrc, mutation in muts:
+    _mutate_after_bind(rec, f'bind.mutated-after-bind/{name}', field, psrc, mutation)
   # A placeholder object already bound to one spec, then bound to another.
   rebinds = [
       ('loose-then-strict', 'Int()', 'i', 'pg.oneof([1, -1])'),
